@@ -202,16 +202,17 @@ type cob struct {
 }
 
 type analyzer struct {
-	p       *Prog
-	prog    *ssa.Program
-	cursorT *types.Named
-	holders map[*types.Named]bool // structs of the package holding the cursor by value
-	posIdx  int
-	inIdx   int
-	next    *ssa.Function
-	back    *ssa.Function
-	methods []*ssa.Function
-	sums    map[*ssa.Function]*summary
+	p         *Prog
+	prog      *ssa.Program
+	cursorT   *types.Named
+	holders   map[*types.Named]bool // structs of the package holding the cursor by value
+	skipUntil *ssa.Function         // synthesised bulk skip (outlineSkipUntil), nil if the package has none
+	posIdx    int
+	inIdx     int
+	next      *ssa.Function
+	back      *ssa.Function
+	methods   []*ssa.Function
+	sums      map[*ssa.Function]*summary
 	// cursor methods that are not readers themselves and are analysed as part of their callers (inlined views)
 	inlinedHelpers map[*ssa.Function]bool
 	peek           *ssa.Function // a non-consuming read primitive (same bounds-checked load as NEXT, no advance), if any
@@ -460,6 +461,192 @@ func (a *analyzer) outlineStepBack(pkgpath string) *ssa.Function {
 	p.Funcs = append(p.Funcs, g)
 	p.outlined[pkgpath] = g
 	return g
+}
+
+// outlineSkipUntil: the bulk skip `text := input[pos:]; if i := strings.IndexByte(text, c); i >= 0 { text = text[:i] };
+// pos += len(text)` (the rest of a line found with the library's byte search instead of a loop of reads) is given the
+// form the rules speak about: a call of a synthesised `skipUntil$outlined(p, c)` that reads up to the first c or the end
+// of the input with the two cursor primitives; uses of text after the statement read input[pos0:pos]. Nothing is
+// executed; the rewritten statement moves the cursor to the same place and denotes the same bytes.
+func (a *analyzer) outlineSkipUntil(pkgpath string) {
+	p := a.p
+	key := pkgpath + "#skipUntil"
+	if _, done := p.outlined[key]; done {
+		return
+	}
+	if p.outlined == nil {
+		p.outlined = map[string]*ssa.Function{}
+	}
+	p.outlined[key] = nil
+	type site struct {
+		st         *ssa.Store
+		recv, c    ssa.Value
+		text       ssa.Value
+		lenCall    ssa.Instruction
+		input, low ssa.Value
+	}
+	var sites []site
+	isLoadOf := func(v ssa.Value, base ssa.Value, field int) bool {
+		ld, ok := v.(*ssa.UnOp)
+		if !ok || ld.Op != token.MUL {
+			return false
+		}
+		fa, ok := ld.X.(*ssa.FieldAddr)
+		return ok && fa.X == base && fa.Field == field && isRecvField(fa, nil, field, a.cursorT)
+	}
+	for _, f := range p.FuncsOf(pkgpath) {
+		if f == a.next || f == a.back {
+			continue
+		}
+		for _, b := range f.Blocks {
+			for _, in := range b.Instrs {
+				st, ok := in.(*ssa.Store)
+				if !ok || !isRecvField(st.Addr, nil, a.posIdx, a.cursorT) {
+					continue
+				}
+				base := st.Addr.(*ssa.FieldAddr).X
+				bo, ok := st.Val.(*ssa.BinOp)
+				if !ok || bo.Op != token.ADD {
+					continue
+				}
+				var lenC *ssa.Call
+				for _, pr := range [][2]ssa.Value{{bo.X, bo.Y}, {bo.Y, bo.X}} {
+					if c, isC := pr[1].(*ssa.Call); isC && isLoadOf(pr[0], base, a.posIdx) {
+						if bi, isB := c.Call.Value.(*ssa.Builtin); isB && bi.Name() == "len" && len(c.Call.Args) == 1 {
+							lenC = c
+						}
+					}
+				}
+				if lenC == nil {
+					continue
+				}
+				ph, ok := lenC.Call.Args[0].(*ssa.Phi)
+				if !ok || len(ph.Edges) != 2 || ph.Block() != b {
+					continue
+				}
+				// one edge: rest = input[pos:]; the other: rest[:i] with i = IndexByte(rest, c)
+				var rest, cut *ssa.Slice
+				var restEdge, cutEdge int
+				for i, e := range ph.Edges {
+					sl, isSl := e.(*ssa.Slice)
+					if !isSl {
+						continue
+					}
+					if inner, isInner := sl.X.(*ssa.Slice); isInner && sl.Low == nil && sl.High != nil && sl.Max == nil {
+						cut, cutEdge = sl, i
+						_ = inner
+					} else {
+						rest, restEdge = sl, i
+					}
+				}
+				if rest == nil || cut == nil || cut.X != ssa.Value(rest) || rest.High != nil || rest.Max != nil || rest.Low == nil {
+					continue
+				}
+				if !isLoadOf(rest.X, base, a.inIdx) || !isLoadOf(rest.Low, base, a.posIdx) {
+					continue
+				}
+				idx, ok := cut.High.(*ssa.Call)
+				if !ok || len(idx.Call.Args) != 2 || idx.Call.Args[0] != ssa.Value(rest) {
+					continue
+				}
+				var cval ssa.Value
+				switch calleeName(&idx.Call) {
+				case "strings.IndexByte":
+					if k, isK := idx.Call.Args[1].(*ssa.Const); isK {
+						if n, okN := constInt(k); okN {
+							cval = ssa.NewConst(constant.MakeInt64(int64(n)), a.next.Signature.Results().At(0).Type())
+						}
+					}
+				case "strings.Index":
+					if k, isK := idx.Call.Args[1].(*ssa.Const); isK && k.Value != nil && k.Value.Kind() == constant.String {
+						if sv := constant.StringVal(k.Value); len(sv) == 1 {
+							cval = ssa.NewConst(constant.MakeInt64(int64(sv[0])), a.next.Signature.Results().At(0).Type())
+						}
+					}
+				}
+				if cval == nil {
+					continue
+				}
+				// the branch: the cut edge is taken exactly when i >= 0
+				A := b.Preds[cutEdge]
+				D := b.Preds[restEdge]
+				if len(A.Preds) != 1 || A.Preds[0] != D || cut.Block() != A || rest.Block() != D || idx.Block() != D {
+					continue
+				}
+				iff, ok := D.Instrs[len(D.Instrs)-1].(*ssa.If)
+				if !ok {
+					continue
+				}
+				cmp, ok := iff.Cond.(*ssa.BinOp)
+				if !ok || cmp.X != ssa.Value(idx) {
+					continue
+				}
+				k, okK := constInt(cmp.Y)
+				if !okK {
+					continue
+				}
+				foundOnTrue := cmp.Op == token.GEQ && k == 0 || cmp.Op == token.GTR && k == -1 || cmp.Op == token.NEQ && k == -1
+				foundOnFalse := cmp.Op == token.LSS && k == 0 || cmp.Op == token.LEQ && k == -1 || cmp.Op == token.EQL && k == -1
+				if !(foundOnTrue && D.Succs[0] == A && D.Succs[1] == b) && !(foundOnFalse && D.Succs[1] == A && D.Succs[0] == b) {
+					continue
+				}
+				// nothing else moves or reads the cursor between the load of the position and the store
+				clean := true
+				inRange := false
+				for _, blk := range []*ssa.BasicBlock{D, A, b} {
+					for _, x := range blk.Instrs {
+						if x == ssa.Instruction(rest.Low.(*ssa.UnOp)) {
+							inRange = true
+						}
+						if x == ssa.Instruction(st) {
+							inRange = false
+						}
+						if !inRange {
+							continue
+						}
+						switch y := x.(type) {
+						case *ssa.Call:
+							if y != idx && y != lenC {
+								clean = false
+							}
+						case *ssa.Store, *ssa.Go, *ssa.Defer, *ssa.MapUpdate, *ssa.Send:
+							clean = false
+						}
+					}
+				}
+				if !clean {
+					continue
+				}
+				// text is not used before the store except by len
+				okUse := true
+				for _, ref := range *ph.Referrers() {
+					if ref == ssa.Instruction(lenC) {
+						continue
+					}
+					if ref.Block() == b && instrIndex(ref) < instrIndex(st) {
+						okUse = false
+					}
+					if ref.Block() != b && !b.Dominates(ref.Block()) {
+						okUse = false
+					}
+				}
+				if !okUse {
+					continue
+				}
+				sites = append(sites, site{st, base, cval, ph, lenC, rest.X, rest.Low})
+			}
+		}
+	}
+	if len(sites) == 0 {
+		return
+	}
+	g := ssa.SynthSkipUntil(p.SPkgs[pkgpath], "skipUntil$outlined", types.NewPointer(a.cursorT), a.next, a.back)
+	for _, s := range sites {
+		ssa.OutlineSkipUntil(s.st, g, s.recv, s.c, s.text, s.lenCall, s.input, s.low, a.posIdx)
+	}
+	p.Funcs = append(p.Funcs, g)
+	p.outlined[key] = g
+	a.skipUntil = g
 }
 
 // normalisePeeks rewrites, in a reader's view, step-back-then-read-again sequences that come from inlined peek/expect
@@ -1263,6 +1450,10 @@ func RunCursor(p *Prog, pkgpath string) *CursorResult {
 		res.Problem = "cursor primitives (read-and-advance, step back) not recognised by shape"
 		return res
 	}
+	a.outlineSkipUntil(pkgpath)
+	if g := p.outlined[pkgpath+"#skipUntil"]; g != nil {
+		a.skipUntil = g
+	}
 	sort.Slice(a.methods, func(i, j int) bool { return a.methods[i].Name() < a.methods[j].Name() })
 	// Readers are analysed in their inlined views (inline.go): a cursor method that is not itself a reader in the sense
 	// of the rules - it returns nothing, or a tuple other than (value, error) - is a piece of its callers factored out
@@ -1385,6 +1576,9 @@ func RunCursor(p *Prog, pkgpath string) *CursorResult {
 	keep := func(callee *ssa.Function) bool {
 		if callee == a.next || callee == a.back || callee == a.peek {
 			return true
+		}
+		if callee == a.skipUntil && callee != nil {
+			return false // the synthesised loop of reads is part of whoever skips
 		}
 		if !a.isCursorMethod(callee) {
 			// a plain function of the parser package that is handed state of the reader (`define(members, kind,
